@@ -22,7 +22,9 @@ def run(chk, replay=None):
         for h in hs:
             k = rng.choice([0, 1, 3, 40 if th else 12]) if i < 5 else rng.choice([1, 2, 3])
             data = b''.join((rng.choice(pool) if rng.random() < 0.8 else rng.choice([b'', b'', b'   ', b'not json'])) + b'\n' for _ in range(k + (2 if i >= 3 else 0)))
-            if i == 2: data = pool[0] + b'\n\n' + pool[1] + b'\n' + pool[2] + b'\n\n\n' + pool[0] + b'\n'     # rotated segments separated by blank lines
+            if i == 2:      # rotated segments separated by blank lines; highly repetitive, so that the stored (compressed) file holds far fewer LF bytes than the log has lines
+                seg = lambda x, n: (x + b'\n') * n
+                data = pool[0] + b'\n\n' + seg(pool[1], 12) + b'\n' + seg(pool[2], 30) + b'\n\n\n' + seg(pool[0], 25) + b'   \n' + seg(pool[1], 8)
             payloads.append((data, streamlib.gz_bytes(data, members=rng.choice([1, 1, 3]))))
         window = rng.choice([None, None, (1700000000, 1700003600), (5, 6)])
         cfg = rng.choice([Cfg(), Cfg(nums=True, nss=True), Cfg(repl='ZZ', ips=True)])
